@@ -240,7 +240,8 @@ def head_text(s: Struct, const_name=None):
         args += f", default = {val}" if s.default_sep == '=' else f", default: {val}"
     if s.debug:
         args += ", debug"
-    return f"#[bitfield({args})] pub struct {s.name}"
+    vis = getattr(s, "vis", "pub")
+    return f"#[bitfield({args})] {vis + ' ' if vis else ''}struct {s.name}"
 
 
 def default_lit(s: Struct):
@@ -283,7 +284,8 @@ def struct_decl(s: Struct, derives='', doc=False):
     txt = "\n".join(lines)
     derives = derives or getattr(s, "derives", "")
     if derives:
-        txt = txt.replace("] pub struct", f"] {derives} pub struct", 1)
+        import re as _re
+        txt = _re.sub(r"\] ((?:pub(?:\(crate\))? )?struct)", lambda m: f"] {derives} " + m.group(1), txt, count=1)
     return txt
 
 
